@@ -115,6 +115,31 @@ def run(P, chk, tier):
     run_more(P, chk, E)
 
 
+def name_terminated(P, E):
+    """[(strncpy call, ok, detail)] for every copy of a decoded name into a query's name field in dns_decode."""
+    out = []
+    dd = P.func("dns_decode", "dns.c")
+    an = E.analysis(dd)
+    for b, c in dd.calls("strncpy"):
+        dst = sk(c["a"][0])
+        if dst.get("k") != "Mem" or dst["field"] != "name":
+            continue
+        src = sk(c["a"][1])
+        n = cval(sk(c["a"][2]))
+        ssize = src.get("t", {}).get("size") if src.get("t", {}).get("k") == "array" else None
+        ds = an.before_node(c["n"]) or []
+        src_ok = ssize is not None and n is not None and ssize <= n and all(
+            guard.d_holds(d, "==", "%s[sizeof(%s) - 1]" % (pp(src), pp(src)), 0) or guard.d_holds(d, "==", "%s[%d]" % (pp(src), ssize - 1), 0)
+            for d in ds)
+        dkey = "%s[sizeof(%s) - 1]" % (pp(dst), pp(dst))
+        after = an.before(b.id, len(b.elems)) or []
+        dst_ok = bool(after) and all(guard.d_holds(d, "==", dkey, 0) for d in after)
+        out.append((c, src_ok or dst_ok,
+                    "neither the source is known to be terminated within %s bytes nor is %s set to 0 afterwards" % (n, dkey)
+                    if not (src_ok or dst_ok) else ("source terminated" if src_ok else "destination terminated")))
+    return out
+
+
 def run_more(P, chk, E):
     from iosa import pairs
     r3 = chk.rule("C12.R3", "reads below the valid length",
@@ -139,27 +164,11 @@ def run_more(P, chk, E):
                   "where dns_decode copies a query name into q->name with strncpy(dst, src, n), either the source is "
                   "known to be NUL-terminated within n bytes (src[sizeof(src)-1] == 0 and sizeof(src) <= n) or the "
                   "destination's last byte is set to NUL right after (the echo of the name relies on it)", "E1", floor=1)
-    dd = P.func("dns_decode", "dns.c")
-    an = E.analysis(dd)
     n5 = 0
-    for b, c in dd.calls("strncpy"):
-        dst = sk(c["a"][0])
-        if dst.get("k") != "Mem" or dst["field"] != "name":
-            continue
+    dd = P.func("dns_decode", "dns.c")
+    for c, ok5, det5 in name_terminated(P, E):
         n5 += 1
-        src = sk(c["a"][1])
-        n = cval(sk(c["a"][2]))
-        ssize = src.get("t", {}).get("size") if src.get("t", {}).get("k") == "array" else None
-        ds = an.before_node(c["n"]) or []
-        src_ok = ssize is not None and n is not None and ssize <= n and all(
-            guard.d_holds(d, "==", "%s[sizeof(%s) - 1]" % (pp(src), pp(src)), 0) or guard.d_holds(d, "==", "%s[%d]" % (pp(src), ssize - 1), 0)
-            for d in ds)
-        dkey = "%s[sizeof(%s) - 1]" % (pp(dst), pp(dst))
-        after = an.before(b.id, len(b.elems)) or []
-        dst_ok = bool(after) and all(guard.d_holds(d, "==", dkey, 0) for d in after)
-        chk.site(r5, dd, ir.loc(c), pp(c)[:70], src_ok or dst_ok,
-                 "neither the source is known to be terminated within %s bytes nor is %s set to 0 afterwards" % (n, dkey)
-                 if not (src_ok or dst_ok) else ("source terminated" if src_ok else "destination terminated"))
+        chk.site(r5, dd, ir.loc(c), pp(c)[:70], ok5, det5)
     if n5 == 0:
         raise C.AnalysisBroken("C12.R5: no strncpy into a query name in dns_decode")
     # ------------------------------------------------------------------ R6
